@@ -1,5 +1,5 @@
 (* Xml/Harness.v — correspondence driver for the XML lexer model (C11). *)
-From Verif Require Import Common.Base Common.Codec Common.Lx Xml.Model Xml.WellFormed Xml.Checker.
+From Verif Require Import Common.Base Common.Codec Common.Lx Xml.Model Xml.WellFormed Xml.Checker Xml.Agree.
 
 (* a slice as observed: nil = -1 -1; empty = -2 -2 (Go keeps no reliable address for a
    zero-capacity slice); otherwise lo hi bytes... *)
@@ -70,6 +70,22 @@ Definition dec_attr (l : list Z) : option (attr * list Z) :=
   | q :: t => val <- dec_bytes t ;; Some (mkAttr (fst lead) (fst name) (fst ws1) (fst ws2) q (fst val), snd val)
   end.
 
+(* a general piece: lead name vkind [w1 w2 [q] val] *)
+Definition dec_gattr (l : list Z) : option (gattr * list Z) :=
+  lead <- dec_bytes l ;; name <- dec_bytes (snd lead) ;;
+  match snd name with
+  | [] => None
+  | vk :: t =>
+      if vk =? 0 then Some (mkG (fst lead) (fst name) VNone, t)
+      else
+        w1 <- dec_bytes t ;; w2 <- dec_bytes (snd w1) ;;
+        if vk =? 1 then x <- dec_bytes (snd w2) ;; Some (mkG (fst lead) (fst name) (VUnq (fst w1) (fst w2) (fst x)), snd x)
+        else match snd w2 with
+             | [] => None
+             | q :: t' => x <- dec_bytes t' ;; Some (mkG (fst lead) (fst name) (VQuo (fst w1) (fst w2) q (fst x)), snd x)
+             end
+  end.
+
 Definition dec_dinner (l : list Z) : option (dinner * list Z) :=
   match l with
   | [] => None
@@ -110,6 +126,19 @@ Definition dec_item (l : list Z) : option (item * list Z) :=
              | v :: t' => Some (IStart (fst n) (fst ats) (fst ws) (negb (v =? 0)), t')
              end
       else if k =? 6 then n <- dec_bytes t ;; ws <- dec_bytes (snd n) ;; Some (IEnd (fst n) (fst ws), snd ws)
+      else if k =? 7 then
+        match t with
+        | [] => None
+        | pi :: t1 =>
+            n <- dec_bytes t1 ;; c <- dec_count (snd n) ;; gs <- dec_n dec_gattr (fst c) (snd c) ;;
+            ws <- dec_bytes (snd gs) ;;
+            match snd ws with
+            | [] => None
+            | kc :: t' =>
+                let kt := if kc =? 7 then TStartTagCloseVoid else if kc =? 8 then TStartTagClosePI else TStartTagClose in
+                Some (ITag (negb (pi =? 0)) (fst n) (fst gs) (fst ws) kt, t')
+            end
+        end
       else None
   end.
 
@@ -124,5 +153,24 @@ Definition run_xmlspec (l : list Z) : list Z :=
   | Some (items, _) =>
       if doc_okb items
       then -4 :: enc_bytes (render_doc items) ++ len (expect_doc items) :: concat (map enc_etok (expect_doc items)) ++ [1]
+      else [-5]
+  end.
+
+(* ---- third entry point: the reference semantics (Xml/Agree.v) ---------------------------------------------------- *)
+(* case: a document as for xmlspec.  output: -9 / -5 as above, otherwise
+   -4 nevents (kind name [nattrs (name value)*])*   kind: 0 start, 1 end, 2 processing instruction *)
+Definition enc_xevent (e : xevent) : list Z :=
+  match e with
+  | EStart n attrs => 0 :: enc_bytes n ++ len attrs :: concat (map (fun a => enc_bytes (fst a) ++ enc_bytes (snd a)) attrs)
+  | EEnd n => 1 :: enc_bytes n
+  | EPI t => 2 :: enc_bytes t
+  end.
+
+Definition run_xmlref (l : list Z) : list Z :=
+  match (c <- dec_count l ;; dec_n dec_item (fst c) (snd c)) with
+  | None => [-9]
+  | Some (items, _) =>
+      if doc_okb items
+      then -4 :: len (ref_events items) :: concat (map enc_xevent (ref_events items))
       else [-5]
   end.
